@@ -180,6 +180,19 @@ def provenance(expr, const_of=None, name_of=None):
                             p.src, p.src_lo + drop,
                             None if p.n is None else p.n - drop, 0))
                 return Layout(inner.const >> k, pieces)
+            if isinstance(op, (ast.FloorDiv, ast.Mod)):
+                # x // 2**k and x % 2**k of a non-negative x are a shift and
+                # a mask (the sources here are unsigned struct fields)
+                c = const_of(e.right)
+                if c is not None and c > 0 and c & (c - 1) == 0:
+                    k = c.bit_length() - 1
+                    if isinstance(op, ast.FloorDiv):
+                        eq_ = ast.BinOp(left=e.left, op=ast.RShift(),
+                                        right=ast.Constant(value=k))
+                    else:
+                        eq_ = ast.BinOp(left=e.left, op=ast.BitAnd(),
+                                        right=ast.Constant(value=c - 1))
+                    return go(ast.copy_location(eq_, e))
             if isinstance(op, ast.Mult):
                 for a, b in ((e.left, e.right), (e.right, e.left)):
                     c = const_of(b)
